@@ -167,6 +167,10 @@ func storeErr(err error) string {
 		return "prefix"
 	case strings.Contains(err.Error(), "unable to relocate storage"):
 		return "rename"
+	case strings.HasPrefix(err.Error(), "remove "):
+		// os.Remove of the temporary file failed: ENOENT after Finalize, ENOTDIR
+		// when something else now occupies the root.
+		return "temp-gone"
 	}
 	return "other:" + err.Error()
 }
